@@ -5,7 +5,7 @@ Applies <seed dir>/patch.diff to /repo, builds, runs the demonstration (must FAI
 the seed's property, prints what each reports, and ALWAYS reverts /repo afterwards (git checkout -- .)."""
 import json, os, subprocess, sys, time
 
-REPO = '/repo'
+REPO = os.environ.get('SEED_REPO', '/scratch/seedrun')   # a scratch worktree of /repo (agents may be reading /repo)
 VERIF = os.path.dirname(os.path.dirname(os.path.abspath(__file__)))
 
 
@@ -19,6 +19,10 @@ def main():
     meta = json.load(open(os.path.join(d, 'meta.json')))
     pid = meta['property']
     checks = sys.argv[2:] if len(sys.argv) > 2 and not sys.argv[2].startswith('--') else [pid]
+    if REPO != '/repo':
+        if not os.path.exists(REPO):
+            sh('git -C /repo worktree add --detach %s HEAD' % REPO)
+        sh('git checkout -q --detach $(git -C /repo rev-parse HEAD) && git checkout -- . && git clean -fdq src', REPO)
     rc, out = sh('git status --porcelain', REPO)
     if out.strip():
         print('REPO not clean, aborting'); return 2
@@ -29,16 +33,18 @@ def main():
         if not st.strip():
             print('patch did not apply:', out[-500:]); return 2
         sh('git reset -q', REPO)
-        rc, out = sh('cargo build --offline 2>&1 | tail -3', REPO)
-        res['build'] = out.strip().split('\n')[-1]
+        env = dict(os.environ, VERIF_REPO=REPO)
+        rc, out = sh('python3 -c "import sys; sys.path.insert(0, \'%s/replay\'); import realcode; print(realcode.ucg_binary())"' % VERIF, VERIF, env=env)
+        ucg = out.strip().split('\n')[-1]
+        res['build'] = ucg
         demo = os.path.join(d, 'demo.sh')
         if os.path.exists(demo):
-            rc, out = sh('sh %s %s/target/debug/ucg' % (demo, REPO), d, timeout=600)
+            rc, out = sh('sh %s %s' % (demo, ucg), d, timeout=600)
             res['demo_with_change_rc'] = rc
         for c in checks:
             for tier in ('quick', 'thorough'):
                 t0 = time.time()
-                rc, out = sh('./check %s %s' % (c, tier), VERIF, timeout=3600)
+                rc, out = sh('./check %s %s' % (c, tier), VERIF, timeout=3600, env=dict(os.environ, VERIF_REPO=REPO))
                 lines = [l for l in out.split('\n') if l.startswith(('VIOLATION', 'UNDECIDED', 'OK ', 'KNOWN'))]
                 res['%s_%s' % (c, tier)] = dict(rc=rc, lines=[l[:400] for l in lines], wall=round(time.time() - t0, 1))
     finally:
